@@ -503,10 +503,26 @@ def select_samples(sc):
     return [f["samples"].index(nm) for f, nm in zip(files, names)], names
 
 
+def simple_scenario(ploidy, gts_per_file, ps=7):
+    """one chromosome, one sample, one phase set per file; gts_per_file[f][i] = GT string of site i in file f"""
+    files = []
+    for gts in gts_per_file:
+        files.append(dict(samples=["s1"], records=[
+            dict(chrom="chrA", pos=100 * (i + 1), ref="A", alts=["C"], has_ps=True, calls=[dict(gt=g, ps=ps)])
+            for i, g in enumerate(gts)]))
+    return dict(ploidy=ploidy, only_snvs=False, ignore_sample_name=False, sample=None, names=None, files=files)
+
+
+def dip_gts(h):
+    return [f"{c}|{1 - int(c)}" for c in h]
+
+
 def gen_scenario(rng, ploidy, nfiles, identical=False, mav=False):
     k = ploidy
-    chroms = CHROMS[:rng.choice([1, 1, 2, 3])]
-    smode = rng.choice(["single", "single", "multi", "shared", "ignore"])
+    chroms = CHROMS[:rng.choice([1, 1, 2, 3])] if not mav else CHROMS[:1]
+    smode = rng.choice(["single", "single", "multi", "shared", "ignore"]) if not mav else "single"
+    clean = identical or mav
+    p_switch, p_flip = (0.0, 0.0) if identical else (0.05, 0.03) if nfiles > 2 else (0.15, 0.08)
     if smode == "single":
         samples = [["s1"]] * nfiles
         sample, ignore = None, False
@@ -519,7 +535,7 @@ def gen_scenario(rng, ploidy, nfiles, identical=False, mav=False):
     else:
         samples = [[f"n{i}"] for i in range(nfiles)]
         sample, ignore = None, True
-    sc = dict(ploidy=k, only_snvs=rng.random() < 0.25, ignore_sample_name=ignore, sample=sample,
+    sc = dict(ploidy=k, only_snvs=(rng.random() < 0.25 and not mav), ignore_sample_name=ignore, sample=sample,
               names=(",".join(f"d{i}" for i in range(nfiles)) if rng.random() < 0.3 else None), files=[])
     alph = [0, 1] if (k == 2 and not mav) or rng.random() < 0.7 else [0, 1, 2]
     # sites and a "true" phasing
@@ -543,13 +559,13 @@ def gen_scenario(rng, ploidy, nfiles, identical=False, mav=False):
     for fi in range(nfiles):
         drop_chrom = rng.choice(chroms) if (len(chroms) > 1 and rng.random() < 0.2) else None
         records = []
-        nb = rng.randint(1, 4)
+        nb = rng.randint(1, 4) if not mav else 1
         ids = rng.sample([5, 17, 100, 2041, 33333, -4, 0, 77], nb)
         contiguous = rng.random() < 0.65
         cur_block = {}
         perm_of = {}
         for s in sites:
-            if s["chrom"] == drop_chrom or rng.random() < 0.1:
+            if s["chrom"] == drop_chrom or (rng.random() < 0.1 and not mav):
                 continue
             c = s["chrom"]
             if contiguous:
@@ -563,23 +579,23 @@ def gen_scenario(rng, ploidy, nfiles, identical=False, mav=False):
                 p = list(range(k))
                 rng.shuffle(p)
                 perm_of[key] = p
-            if rng.random() < (0.0 if identical else 0.15):         # switch error from here on
+            if rng.random() < p_switch:         # switch error from here on
                 i, j = rng.sample(range(k), 2)
                 p = perm_of[key]
                 p[i], p[j] = p[j], p[i]
             al = [s["truth"][i] for i in perm_of[key]]
-            if not identical and rng.random() < 0.08:                # flip error
+            if rng.random() < p_flip:                # flip error
                 i, j = rng.sample(range(k), 2)
                 al[i], al[j] = al[j], al[i]
             if not identical and k > 2 and rng.random() < 0.06:      # different genotype
                 al[rng.randrange(k)] = rng.choice([a for a in alph if a <= len(s["alts"])])
-            has_ps = rng.random() > 0.06
+            has_ps = rng.random() > 0.06 or mav
             calls = []
             for si in range(len(samples[fi])):
                 x = rng.random()
                 a = al if si == 0 else [rng.choice([a for a in alph if a <= len(s["alts"])]) for _ in range(k)]
-                ps = bid if rng.random() > 0.04 else None
-                if x < 0.78 or identical:
+                ps = bid if (rng.random() > 0.04 or mav) else None
+                if x < 0.78 or clean:
                     gt = "|".join(map(str, a))
                 elif x < 0.86:
                     gt = "/".join(map(str, sorted(a)))
@@ -596,7 +612,7 @@ def gen_scenario(rng, ploidy, nfiles, identical=False, mav=False):
                 calls.append(dict(gt=gt, ps=ps))
             # the column of the compared sample is the one named first in `samples[fi]` before shuffling: keep simple
             records.append(dict(chrom=c, pos=s["pos"], ref=s["ref"], alts=list(s["alts"]), has_ps=has_ps, calls=calls))
-            if rng.random() < 0.03:     # duplicate position (second record is skipped by the reader)
+            if rng.random() < 0.03 and not mav:     # duplicate position (second record is skipped by the reader)
                 records.append(dict(chrom=c, pos=s["pos"], ref="A", alts=["AGG"], has_ps=True,
                                     calls=[dict(gt="|".join(["0"] * (k - 1) + ["1"]), ps=ids[0]) for _ in samples[fi]]))
             if rng.random() < 0.02:     # record without ALT
@@ -731,8 +747,8 @@ def has_allele2(views):
     return any(c["phase"] is not None and any(a is not None and a > 1 for a in c["phase"][1]) for v in views for c in v)
 
 
-CLI2_LET = ("fun c : (list call * list call * (nat * nat * nat) * " + T5 + " * nat * " + T5 + " * list Z * list bool * list (Z * Z) * nat) => "
-            "let '(t0, t1, counts, tot, lpairs, lb, lpos, lagree, bed, het0) := c in "
+CLI2_LET = ("fun c : (list call * list call * (nat * nat * nat) * " + T5 + " * nat * " + T5 + " * list Z * list bool * list (Z * Z) * nat * list call) => "
+            "let '(t0, t1, counts, tot, lpairs, lb, lpos, lagree, bed, het0, tfirst) := c in "
             "let '(nb, nv, pairs) := counts in ")
 CLI2_CHECKS = {
     # L1 (identities between the outputs of one run, as the property states them)
@@ -745,13 +761,13 @@ CLI2_CHECKS = {
     "L2_row": CLI2_LET + "match compare2 t0 t1 with (nb', nv', Some s) => "
               "Nat.eqb nb nb' && Nat.eqb nv nv' && Nat.eqb pairs (ps_pairs s) && pe_eqb (pe5 tot) (ps_total s) && "
               "Nat.eqb lpairs (ps_longest s - 1) && pe_eqb (pe5 lb) (ps_longest_err s) && "
-              "Nat.eqb het0 (length (filter c_het t0)) | _ => false end",
+              "Nat.eqb het0 (length (filter c_het tfirst)) | _ => false end",
     "L2_longest_block": CLI2_LET + "match compare2 t0 t1 with (_, _, Some s) => "
                         "zlist_eqb lpos (ps_longest_pos s) && hap_eqb lagree (ps_longest_agree s) | _ => false end",
     "L2_bed": CLI2_LET + "match compare2 t0 t1 with (_, _, Some s) => zzlist_eqb (zz_sort (ps_bed s)) bed | _ => false end",
 }
-CLIP_LET = ("fun c : (nat * list pcall * list pcall * (nat * nat * nat) * " + PT5 + " * nat * " + PT5 + " * nat) => "
-            "let '(k, t0, t1, counts, tot, lpairs, lb, het0) := c in let '(nb, nv, pairs) := counts in "
+CLIP_LET = ("fun c : (nat * list pcall * list pcall * (nat * nat * nat) * " + PT5 + " * nat * " + PT5 + " * nat * list pcall) => "
+            "let '(k, t0, t1, counts, tot, lpairs, lb, het0, tfirst) := c in let '(nb, nv, pairs) := counts in "
             "let '(tsw, tham, tsfs, tsff, tdiff) := tot in let '(lsw, lham, lsfs, lsff, ldiff) := lb in "
             "let '(nb', nv', s) := compare2_poly k t0 t1 in ")
 CLIP_CHECKS = {
@@ -759,7 +775,7 @@ CLIP_CHECKS = {
               "N.eqb tham (pps_hamming s) && N.eqb (tsfs + tsff) (pps_sf_cost s) && Nat.eqb tdiff (pps_diff s) && "
               "Nat.eqb lpairs (pps_longest s - 1) && N.eqb lsw (ppe_switches_num (pps_longest_err s)) && "
               "N.eqb lham (ppe_hamming_num (pps_longest_err s)) && nn_in (lsfs, lsff) (ppe_sf_allowed (pps_longest_err s)) && "
-              "Nat.eqb ldiff (ppe_diff (pps_longest_err s)) && Nat.eqb het0 (length (filter (fun c => c_het (strip c)) t0))",
+              "Nat.eqb ldiff (ppe_diff (pps_longest_err s)) && Nat.eqb het0 (length (filter (fun c => c_het (strip c)) tfirst))",
 }
 MW_CHECKS = {
     "L2_multiway": "fun c : (list (list call) * nat * list (hap * nat)) => let '(ts, total, hist) := c in "
@@ -869,13 +885,15 @@ def check_cli(ctx, scenarios, label):
                         lbv = res["lb"].get((dnames[i], dnames[j], c), [])
                         cases2.append(term((t0, t1, tuple(Nat(x) for x in counts), tuple(Nat(x) for x in tot), Nat(lp),
                                             tuple(Nat(x) for x in lb), L([p for p, _ in lbv], "Z"),
-                                            bools([a for _, a in lbv]), L(bed, "(Z * Z)"), Nat(het0))))
+                                            bools([a for _, a in lbv]), L(bed, "(Z * Z)"), Nat(het0),
+                                            table_term(views[c][0], ids, k))))
                         meta2.append((si, c, i, j, row, lbv, bed))
                         summ.update(bed=bed, lb_zeros=sum(1 for _, a in lbv if a == 0))
                     else:
                         casesp.append(term((Nat(k), t0, t1, tuple(Nat(x) for x in counts),
                                             tuple(NN(x) for x in tot[:4]) + (Nat(tot[4]),), Nat(lp),
-                                            tuple(NN(x) for x in lb[:4]) + (Nat(lb[4]),), Nat(het0))))
+                                            tuple(NN(x) for x in lb[:4]) + (Nat(lb[4]),), Nat(het0),
+                                            table_term(views[c][0], ids, k))))
                         metap.append((si, c, i, j, row))
                     run_summary[(c, i, j)] = summ
             if n > 2 and k == 2:
@@ -943,7 +961,51 @@ def check_cli(ctx, scenarios, label):
     return l2
 
 
-def gen_cli_batch(rng, nruns):
+def py_joint_blocks(v0, v1):
+    """search helper only (python re-statement of compare()'s block intersection): phasings of the joint blocks >= 2"""
+    idx1 = {(c["pos0"], c["key"]): c for c in v1}
+    groups = {}
+    for c in v0:
+        d = idx1.get((c["pos0"], c["key"]))
+        if d is None or not c["het"] or not d["het"] or c["phase"] is None or d["phase"] is None:
+            continue
+        groups.setdefault((c["phase"][0], d["phase"][0]), []).append((c["phase"][1], d["phase"][1]))
+    out = []
+    for g in groups.values():
+        if len(g) >= 2:
+            k = len(g[0][0])
+            out.append((["".join(str(a[j]) for a, _ in g) for j in range(k)], ["".join(str(b[j]) for _, b in g) for j in range(k)]))
+    return out
+
+
+def search_cli_l2(ctx, l2):
+    """L2 failures of CLI rows: look for the failing input among the joint blocks of the disagreeing runs
+    (direct checks on the real functions, verdict by Coq); keep only unexplained disagreements."""
+    rest = {}
+    for name, cases in l2.items():
+        if name == "cli.L2_multiway":
+            rest[name] = cases
+            continue
+        keep = []
+        for case in cases[:6]:
+            sc = case["scenario"]
+            _, _, _, views = expected_structure(sc)
+            i, j = case["pair"]
+            blocks = py_joint_blocks(views[case["chrom"]][i], views[case["chrom"]][j])
+            before = len(ctx.violations)
+            if blocks and sc["ploidy"] > 2:
+                check_poly(ctx, blocks, "cli-search")
+            elif blocks:
+                check_diploid(ctx, [(a[0], b[0]) for a, b in blocks], "cli-search")
+            if len(ctx.violations) == before:
+                keep.append(case)
+        keep += cases[6:] if keep else []
+        if keep:
+            rest[name] = keep
+    return rest
+
+
+def gen_cli_batch(rng, nruns, offset=0):
     items = []
     for r in range(nruns):
         x = r % 10
@@ -953,7 +1015,7 @@ def gen_cli_batch(rng, nruns):
         sc = gen_scenario(rng, k, n, identical=(kind == "identical"))
         items.append(dict(sc=sc, kind=kind, relabel_of=None))
         sc2, fi = relabel_scenario(rng, sc)
-        items.append(dict(sc=sc2, kind=kind, relabel_of=len(items) - 1, relabel_file=fi))
+        items.append(dict(sc=sc2, kind=kind, relabel_of=offset + len(items) - 1, relabel_file=fi))
     return items
 
 
@@ -964,6 +1026,18 @@ CORPUS_POLY = [(["0100", "1011"], ["0000", "1111"]), (["000000", "101111", "1110
                (["1110001", "1011101", "0000010"], ["1110001", "1010010", "0001101"]),
                (["111111", "111111", "111111"], ["111111", "000000", "111111"]),
                (["0100", "1101", "1010"], ["0100", "0100", "1001"])]
+
+
+def corpus_cli():
+    f1a, f1b = "0000000000", "1111111000"
+    return [
+        dict(sc=simple_scenario(2, [dip_gts(f1a), dip_gts(f1b)]), kind="plain", relabel_of=None),          # F1
+        dict(sc=simple_scenario(2, [dip_gts("0101101"), dip_gts("0101101"), dip_gts("0100101")]), kind="plain", relabel_of=None),
+        dict(sc=simple_scenario(2, [dip_gts("010"), dip_gts("000"), dip_gts("010")]), kind="plain", relabel_of=None),   # no all-agree pair
+        dict(sc=simple_scenario(3, [["0|1|1", "1|1|0"], ["0|1|1", "0|0|1"]]), kind="plain", relabel_of=None),         # one matching genotype
+        dict(sc=simple_scenario(3, [["0|1|1", "1|0|1", "0|0|1", "1|1|0"], ["1|0|1", "0|1|1", "0|1|0", "1|0|1"]]), kind="plain", relabel_of=None),
+        dict(sc=simple_scenario(2, [["0|1", "1|2", "0|1"], ["0|1", "2|1", "0|1"]]), kind="mav", relabel_of=None),       # allele 2
+    ]
 
 
 def report_l2(ctx, l2, prefix):
@@ -993,12 +1067,13 @@ def run(ctx):
     _, l2p = check_poly(ctx, blocks, "all", shard=ctx.n(35, 100))
     report_l2(ctx, l2p, "direct.poly.")
     # --- (b) CLI
-    items = gen_cli_batch(rng, ctx.n(30, 500))
+    items = corpus_cli()
+    items += gen_cli_batch(rng, ctx.n(30, 500), offset=len(items))
     # polyploid triple and multi-allelic diploid streams (crash classes)
     items.append(dict(sc=gen_scenario(rng, 3, 3), kind="plain", relabel_of=None))
     for _ in range(ctx.n(3, 12)):
         items.append(dict(sc=gen_scenario(rng, 2, 2, mav=True), kind="mav", relabel_of=None))
-    l2c = check_cli(ctx, items, "run")
+    l2c = search_cli_l2(ctx, check_cli(ctx, items, "run"))
     ctx.sample({"cli_scenario": {"ploidy": items[0]["sc"]["ploidy"], "options": {x: items[0]["sc"][x] for x in ("only_snvs", "ignore_sample_name", "sample", "names")},
                                  "file0_first_records": items[0]["sc"]["files"][0]["records"][:4]}})
     report_l2(ctx, l2c, "")
@@ -1014,10 +1089,10 @@ def replay(ctx, data):
         _, l2 = check_poly(ctx, [(data["ph0"], data["ph1"])], "replay")
         report_l2(ctx, l2, "direct.poly.")
     elif kind == "cli":
-        report_l2(ctx, check_cli(ctx, [dict(sc=data["scenario"], kind="plain", relabel_of=None)], "replay"), "")
+        report_l2(ctx, search_cli_l2(ctx, check_cli(ctx, [dict(sc=data["scenario"], kind="plain", relabel_of=None)], "replay")), "")
     elif kind == "cli-relabel":
         items = [dict(sc=data["scenario"], kind="plain", relabel_of=None),
                  dict(sc=data["relabelled"], kind="plain", relabel_of=0, relabel_file="?")]
-        report_l2(ctx, check_cli(ctx, items, "replay"), "")
+        report_l2(ctx, search_cli_l2(ctx, check_cli(ctx, items, "replay")), "")
     else:
         run(ctx)
